@@ -53,6 +53,15 @@ func VerifT3Replay() {
 	case "mapmarshal":
 		verifT3MapMarshal()
 		return
+	case "slicemarshal":
+		verifT3SliceMarshal()
+		return
+	case "omitempty":
+		verifT3OmitEmpty()
+		return
+	case "structtag":
+		verifT3StructTag()
+		return
 	case "structopts":
 		verifT3StructOptions()
 		return
@@ -502,6 +511,122 @@ func verifT3MapMarshal() {
 		want, e2 := json.Marshal(val)
 		got, e1 := ConfigStd.Marshal(val)
 		v.Assert((e1 == nil) == (e2 == nil), fmt.Sprintf("sonic and encoding/json disagree on failing for %T", val))
+		if e1 == nil && e2 == nil {
+			v.Assert(string(got) == string(want), fmt.Sprintf("Marshal(%#v): sonic gives %s, encoding/json %s", val, got, want))
+		}
+	}
+}
+
+type verifPM struct{ N int }
+
+func (p *verifPM) MarshalJSON() ([]byte, error) { return []byte(`"J"`), nil }
+
+type verifPT struct{ N int }
+
+func (p *verifPT) MarshalText() ([]byte, error) { return []byte("T"), nil }
+
+// verifT3SliceMarshal: slices whose element pointer type implements a marshaler interface,
+// reached without going through a pointer (top level by value, interface contents, map values,
+// fields of a struct passed by value): sonic and encoding/json produce the same text.
+func verifT3SliceMarshal() {
+	type holder struct {
+		A []verifPM
+		B []verifPT
+	}
+	vals := []interface{}{[]verifPM{{1}, {2}}, []verifPT{{1}}, holder{A: []verifPM{{1}}, B: []verifPT{{2}}}, map[string][]verifPM{"k": {{3}}}, []interface{}{[]verifPM{{4}}}}
+	for _, val := range vals {
+		want, e2 := json.Marshal(val)
+		got, e1 := ConfigStd.Marshal(val)
+		v.Assert((e1 == nil) == (e2 == nil), fmt.Sprintf("sonic and encoding/json disagree on failing for %T", val))
+		if e1 == nil && e2 == nil {
+			v.Assert(string(got) == string(want), fmt.Sprintf("Marshal(%#v): sonic gives %s, encoding/json %s", val, got, want))
+		}
+	}
+}
+
+// verifT3OmitEmpty: a struct with one omitempty scalar field holding the model's bits: what
+// sonic writes decodes (encoding/json) to the same value, and the field is left out only when it
+// is zero.
+func verifT3OmitEmpty() {
+	bits := v.Uint64("scalar")
+	var val, back interface{}
+	switch os.Getenv("VERIF_T3_TYPE") {
+	case "omit_float64":
+		type T struct {
+			A float64 `json:"a,omitempty"`
+		}
+		f := math.Float64frombits(bits)
+		if f != f || math.IsInf(f, 0) {
+			return
+		}
+		val, back = T{f}, &T{}
+	case "omit_float32":
+		type T struct {
+			A float32 `json:"a,omitempty"`
+		}
+		f := math.Float32frombits(uint32(bits))
+		if f != f || math.IsInf(float64(f), 0) {
+			return
+		}
+		val, back = T{f}, &T{}
+	case "omit_int64":
+		type T struct {
+			A int64 `json:"a,omitempty"`
+		}
+		val, back = T{int64(bits)}, &T{}
+	case "omit_int32":
+		type T struct {
+			A int32 `json:"a,omitempty"`
+		}
+		val, back = T{int32(bits)}, &T{}
+	case "omit_int16":
+		type T struct {
+			A int16 `json:"a,omitempty"`
+		}
+		val, back = T{int16(bits)}, &T{}
+	case "omit_int8":
+		type T struct {
+			A int8 `json:"a,omitempty"`
+		}
+		val, back = T{int8(bits)}, &T{}
+	case "omit_bool":
+		type T struct {
+			A bool `json:"a,omitempty"`
+		}
+		val, back = T{bits&1 != 0}, &T{}
+	default:
+		return
+	}
+	got, err := ConfigDefault.Marshal(val)
+	v.Assert(err == nil, "Marshal fails on a struct with one scalar field")
+	if err != nil {
+		return
+	}
+	v.Assert(json.Unmarshal(got, back) == nil, fmt.Sprintf("sonic output %s is rejected by encoding/json", got))
+	v.Assert(reflect.DeepEqual(reflect.ValueOf(back).Elem().Interface(), val), fmt.Sprintf("Marshal(%#v) gives %s, which decodes to %#v: an omitempty field holding a non-zero value is left out", val, got, reflect.ValueOf(back).Elem().Interface()))
+}
+
+// verifT3StructTag: one-field structs with each kind of json tag: sonic writes what
+// encoding/json writes.
+func verifT3StructTag() {
+	b := v.Uint64("scalar")&1 != 0
+	vals := []interface{}{
+		struct {
+			A bool `json:"-,"`
+		}{b}, struct {
+			A bool `json:"-"`
+		}{b}, struct {
+			A bool `json:"nm"`
+		}{b}, struct{ Ab bool }{b}, struct {
+			Ab bool `json:",omitempty"`
+		}{b}, struct{ ab bool }{b}, struct {
+			A bool `json:"nm,string"`
+		}{b},
+	}
+	for _, val := range vals {
+		want, e2 := json.Marshal(val)
+		got, e1 := ConfigStd.Marshal(val)
+		v.Assert(e1 == nil && e2 == nil, fmt.Sprintf("Marshal fails for %T", val))
 		if e1 == nil && e2 == nil {
 			v.Assert(string(got) == string(want), fmt.Sprintf("Marshal(%#v): sonic gives %s, encoding/json %s", val, got, want))
 		}
